@@ -179,17 +179,24 @@ def check_exact(c, repo):
 def check_flags(c, repo):
     f = repo.func('spawnbase:SpawnBase.compile_pattern_list')
     g = f.cfg
-    asg = [n for n in g.nodes if n.kind == 'stmt' and isinstance(n.ast, ast.Assign) and 'compile_flags' in assigned_names(n.ast)]
-    c.need(len(asg) == 2, 'compile_pattern_list: expected two assignments to compile_flags')
+    ks0 = [k for k in calls_in(f.node) if dotted(k.func) == 're.compile' and len(k.args) == 2 and isinstance(k.args[1], ast.Name)]
+    if len(ks0) != 1:
+        allc = [k for k in calls_in(f.node) if dotted(k.func) == 're.compile' and not (len(k.args) == 1 and is_const(k.args[0], ''))]
+        c.bad(f, allc[0] if allc else None, 'string patterns are not compiled with the computed flags variable (DOTALL / IGNORECASE handling is bypassed)',
+              witness=norm(allc[0]) if allc else 'no re.compile', kind='alg', tag='flags-used')
+        return
+    FV = ks0[0].args[1].id
+    asg = [n for n in g.nodes if n.kind == 'stmt' and isinstance(n.ast, ast.Assign) and FV in assigned_names(n.ast)]
+    c.need(len(asg) == 2, 'compile_pattern_list: expected two assignments to the flags variable')
     a0, a1 = sorted(asg, key=lambda n: n.id)
     c.check(norm(a0.ast.value) == 're.DOTALL', f, a0.ast, 'flags start as DOTALL ("." matches newlines)', witness=norm(a0.ast), kind='alg', tag='dotall')
     t = [x for x in g.nodes if x.kind == 'test' and norm(x.ast) == 'self.ignorecase']
     v = a1.ast.value
     ok = len(t) == 1 and a1 in guard_region(g, t[0], 'true') and isinstance(v, ast.BinOp) and isinstance(v.op, ast.BitOr) and \
-        sorted([norm(v.left), norm(v.right)]) == ['compile_flags', 're.IGNORECASE']
+        sorted([norm(v.left), norm(v.right)]) == sorted([FV, 're.IGNORECASE'])
     c.check(ok, f, a1.ast, 'IGNORECASE is OR-ed in exactly when self.ignorecase is set (DOTALL is kept)', witness=norm(a1.ast), kind='alg', tag='ignorecase')
     ks = [k for k in calls_in(f.node) if dotted(k.func) == 're.compile' and not (len(k.args) == 1 and is_const(k.args[0], ''))]
-    ok = len(ks) == 1 and len(ks[0].args) == 2 and is_name(ks[0].args[1], 'compile_flags')
+    ok = len(ks) == 1 and len(ks[0].args) == 2 and is_name(ks[0].args[1], FV)
     c.check(ok, f, ks[0] if ks else None, 're.compile receives those flags', witness=norm(ks[0]) if ks else '', kind='alg', tag='flags-used')
     loops = [n for n in iter_nodes(f.node) if isinstance(n, ast.For)]
     mods = [n for n in asg if any(p is loops[0] for p in parent_chain(n.ast))] if loops else []
